@@ -186,7 +186,7 @@ func GenGenuine(r *rand.Rand, w *World, o GenOpts) *Genuine {
 			}
 			nv := r.IntN(6)
 			for k := 0; k < nv; k++ {
-				at.Values = append(at.Values, sim.AttrVal{Value: val(fmt.Sprintf("value-%d-%d", j, k)), XsiType: r.IntN(3) == 0})
+				at.Values = append(at.Values, sim.AttrVal{Value: val(fmt.Sprintf("value-%d-%d", j, k)), XsiType: r.IntN(3) == 0, PlainTwin: (j+2*k)%5 == 1})
 			}
 			used += 1 + nv
 			a.Attrs = append(a.Attrs, at)
